@@ -244,6 +244,9 @@ def reorder_glyphs(font: ttLib.TTFont, new_glyph_order: List[str]):
     for tag in ("CFF ", "CFF2"):
         if tag in font.keys():
             for top_dict in font[tag].cff.topDictIndex:
+                # CharStrings is converted lazily and maps names to indices with the
+                # charset in force at that moment: read it before renaming
+                top_dict.CharStrings
                 top_dict.charset = list(new_glyph_order)
 
     coverage_containers = {"GDEF", "GPOS", "GSUB", "MATH"}
